@@ -12,6 +12,7 @@ def dyn_task(shard, tid0, kind, seeds, nvars, nheld, tmpdir, kmax):
     fps = set()
     events = traces = 0
     samples = []
+    moved = [0]
     with open(shard, 'w') as f:
         tid = tid0
         for seed in seeds:
@@ -27,6 +28,7 @@ def dyn_task(shard, tid0, kind, seeds, nvars, nheld, tmpdir, kmax):
                         fps.add((kind, seed, nvars, tr['meta']['what'],
                                  json.dumps(ev['a'], sort_keys=True),
                                  ev['dyn']['k']))
+                moved[0] += tr['meta'].get('order_changed', 0)
                 if not samples and tr['meta']['requests'] >= 3:
                     samples.append(dict(
                         kind='trigger enumeration', manager=kind,
@@ -34,7 +36,7 @@ def dyn_task(shard, tid0, kind, seeds, nvars, nheld, tmpdir, kmax):
                         requests=tr['meta']['requests'],
                         runs=len(tr['events']) - 1))
     return dict(shard=shard, traces=traces, events=events, fingerprints=fps,
-                samples=samples)
+                samples=samples, moved=moved[0])
 
 
 def run(chk):
@@ -62,15 +64,18 @@ def run(chk):
     i = 0
     for kind in ('autoref', 'bdd'):
         for nvars, nheld in ((4, 4), (5, 5), (3, 3), (6, 6)):
-            for part in range(2 if q else 8):
+            for part in range(1 if q else 8):
                 seeds = [chk.seed * 1000 + 17 * i + s for s in range(nseeds)]
                 tasks.append(dict(shard=chk.shard('dyn_%d' % i), tid0=tid,
                                   kind=kind, seeds=seeds, nvars=nvars,
                                   nheld=nheld, tmpdir=tmp,
-                                  kmax=40 if q else None))
+                                  kmax=24 if q else None))
                 tid += 10000
                 i += 1
-    sh, _ = chk.generate(dyn_task, tasks)
+    sh, res = chk.generate(dyn_task, tasks)
+    chk.extra['runs_in_which_the_order_changed'] = sum(r['moved'] for r in res)
+    if chk.extra['runs_in_which_the_order_changed'] == 0:
+        raise tlcrun.MachineryError('no triggered run changed the variable order (vacuous)')
     # natural triggering at lowered thresholds
     sh += common.stage_histories(chk, ntraces=32 if q else 2000,
                                  steps=80 if q else 200,
